@@ -394,6 +394,30 @@ fn disjoint_polygons(path: &PathSpec, ctm: &Mat) -> Option<Vec<PathSpec>> {
     Some(parts.into_iter().map(|segs| PathSpec::new(path.evenodd, segs)).collect())
 }
 
+/// the subpaths of a path, each as a path of its own (None: fewer than two, or the path does not
+/// begin with a MoveTo / rectangle)
+fn stroke_parts(path: &PathSpec) -> Option<Vec<PathSpec>> {
+    if path.stroke_first.is_some() || path.xf.is_some() || path.flatten.is_some() {
+        return None;
+    }
+    let mut parts: Vec<Vec<Seg>> = Vec::new();
+    for s in &path.segs {
+        match s {
+            Seg::M(..) | Seg::Rect(..) => parts.push(vec![s.clone()]),
+            _ => match parts.last_mut() {
+                // after a rectangle the cursor is back at its first corner; whatever follows
+                // continues that subpath
+                Some(p) => p.push(s.clone()),
+                None => return None,
+            },
+        }
+    }
+    if parts.len() < 2 {
+        return None;
+    }
+    Some(parts.into_iter().map(|segs| PathSpec::new(path.evenodd, segs)).collect())
+}
+
 fn op_blend(op: &Op) -> u8 {
     match op {
         Op::Clear { .. } => BLEND_SRC,
@@ -800,6 +824,46 @@ pub fn run_tower(prop: Prop, h: &History, st: &mut Stats) -> Outcome {
                                         if prop == Prop::C02 { "c02.coverage-outside-every-subpath" } else { "c03.coverage-outside-every-subpath" },
                                         i,
                                         format!("fill: pixel ({},{}) has coverage {} although none of the path's {} separate polygons covers it", p as i32 % w, p as i32 / w, cov[p], parts.len()),
+                                    );
+                                }
+                            }
+                        }
+                    }
+                }
+                // The stroke of a path is the union of the strokes of its subpaths (caps, joins and
+                // the dash pattern are per subpath): where none of them reaches, not even the
+                // neighbouring pixels, the stroke of the whole path has no business either.
+                if let (Some(cov), Op::Stroke { path, style, opts, .. }) = (&cov, op) {
+                    if let Some(parts) = stroke_parts(path) {
+                        let mut near = vec![false; n];
+                        let mut ok = true;
+                        for part in &parts {
+                            let pop = Op::Stroke { path: part.clone(), src: SrcSpec::solid(255, 255, 255, 255), style: style.clone(), opts: opts.clone() };
+                            match mk::guarded(budget, || coverage_of(&pop, &ctm, w, hh)) {
+                                Ok(Some(c)) => {
+                                    for py in 0..hh {
+                                        for px in 0..w {
+                                            if c[(py * w + px) as usize] != 0 {
+                                                for yy in (py - 1).max(0)..=(py + 1).min(hh - 1) {
+                                                    for xx in (px - 1).max(0)..=(px + 1).min(w - 1) {
+                                                        near[(yy * w + xx) as usize] = true;
+                                                    }
+                                                }
+                                            }
+                                        }
+                                    }
+                                }
+                                _ => ok = false,
+                            }
+                        }
+                        if ok {
+                            st.count("stroke_subpath_union_checked");
+                            for p in 0..n {
+                                if cov[p] >= 64 && !near[p] {
+                                    return viol(
+                                        if prop == Prop::C02 { "c02.stroke-coverage-outside-every-subpath" } else { "c03.stroke-coverage-outside-every-subpath" },
+                                        i,
+                                        format!("stroke: pixel ({},{}) has coverage {} although the stroke of none of the path's {} subpaths comes within a pixel of it", p as i32 % w, p as i32 / w, cov[p], parts.len()),
                                     );
                                 }
                             }
